@@ -85,10 +85,27 @@ def run(ctx):
             os.makedirs(os.path.dirname(p), exist_ok=True)
             open(p, 'w').write(vlib.render_workflow(w))
         os.makedirs(os.path.join(base, 'elsewhere'), exist_ok=True)
+        # a second context directory with the same relative file names and different contents, loaded first in the same
+        # process (every other configuration): what it leaves behind must not leak into the run of the real directory
+        decoy = None
+        if k % 2 == 1:
+            decoy = os.path.join(base, 'decoy', 'ctx')
+            for name, w in files.items():
+                w2 = json.loads(json.dumps(w))
+                for sid, st in w2['steps'].items():
+                    if st['kind'] == 'plugin' and st['fields']['input']['kids'].get('id', {}).get('t') == 'lit':
+                        st['fields']['input'] = tmap({'id': lit('decoy-' + sid)})
+                    if st['kind'] == 'foreach':
+                        st['fields']['items'] = lit([{'id': 'decoy'}])
+                p = os.path.join(decoy, name)
+                os.makedirs(os.path.dirname(p), exist_ok=True)
+                open(p, 'w').write(vlib.render_workflow(w2))
         cwd = {'ctx': ctxdir, 'parent': os.path.join(base, 'parent'), 'elsewhere': os.path.join(base, 'elsewhere')}[c['cwd']]
         dirarg = ctxdir if c['dir'] == 'abs' else os.path.relpath(ctxdir, cwd)
         sc = {'engine': True, 'files': {}, 'main': 'workflow.yaml', 'context_dir': dirarg, 'cwd': cwd, 'script': script,
               'runs': [{'input_yaml': '{}\n'}], 'timeout_ms': 30000}
+        if decoy:
+            sc['pre_contexts'] = [decoy]
         scs.append(sc)
         # direct execution of the same text: prepare + Execute with an in-memory context
         d = {'files': {n: vlib.render_workflow(w) for n, w in files.items()}, 'main': 'workflow.yaml', 'script': script, 'runs': [{'input': {}}], 'timeout_ms': 30000}
